@@ -112,6 +112,14 @@ func (u *Unit) argShape(e ast.Expr, at ast.Node, depth int) string {
 				return name + "(" + strings.Join(as, ",") + ")"
 			}
 		}
+		// standard-library package functions (binary.BigEndian.AppendUint64, slices.Concat, …): keep operands
+		if f, _ := typeutil.Callee(u.Info, x).(*types.Func); f != nil && f.Pkg() != nil && !strings.Contains(strings.SplitN(f.Pkg().Path(), "/", 2)[0], ".") && depth < 3 && len(x.Args) <= 4 {
+			as := []string{}
+			for _, a := range x.Args {
+				as = append(as, u.argShape(a, at, depth+1))
+			}
+			return name + "(" + strings.Join(as, ",") + ")"
+		}
 		return name + "()"
 	case *ast.UnaryExpr:
 		return x.Op.String() + u.argShape(x.X, at, depth)
@@ -124,6 +132,17 @@ func (u *Unit) argShape(e ast.Expr, at ast.Node, depth int) string {
 	case *ast.SliceExpr:
 		return u.argShape(x.X, at, depth) + "[:]"
 	case *ast.CompositeLit:
+		if len(x.Elts) > 0 && len(x.Elts) <= 3 && depth < 3 {
+			es := []string{}
+			for _, el := range x.Elts {
+				if kv, ok := el.(*ast.KeyValueExpr); ok {
+					es = append(es, u.argShape(kv.Value, at, depth+1))
+				} else {
+					es = append(es, u.argShape(el, at, depth+1))
+				}
+			}
+			return "lit:" + shortType(u.Info.TypeOf(x)) + "{" + strings.Join(es, ",") + "}"
+		}
 		return "lit:" + shortType(u.Info.TypeOf(x))
 	case *ast.FuncLit:
 		return "func"
